@@ -1,8 +1,36 @@
-"""C19 — the free-arithmetics switch is scoped, restored and isolated per context."""
+"""C19 — the free-arithmetics switch is scoped, restored and isolated per context.
+
+Program items (JSON lists):
+  ["set", v]  ["read"]  ["arith", how]  ["spawn", "spawn_task", child]
+  ["with", v, body, raises]             a fresh `with config.enable_free_arithmetics(v):` statement
+  ["with", v, body, raises, form]       the same block, entered through another way of USING the returned object:
+        "stored:<k>"   cm = config.enable_free_arithmetics(v) kept in cms[k] (shared by the whole case), then `with cm:`
+        "stack"        contextlib.ExitStack().enter_context(config.enable_free_arithmetics(v))
+        "dec:on|off"   a call of the function decorated (once per run, shared by all threads) with
+                       @config.enable_free_arithmetics() / @config.enable_free_arithmetics(False); the body is the callee's
+                       body and is stepped by the schedule like the body of a with statement (real threads only)
+        "adec:on|off"  the same call, carried out in ONE atomic step of the schedule (also inside asyncio tasks, where a
+                       plain function cannot be suspended)
+        "gen:next|close|throw"  a generator (threads) / async generator (tasks) that enters the block and yields; it is
+                       resumed to its end / closed / given an exception by the context that started it
+     `raises`: False | True (the body ends by raising Boom) | "fail:<how>" (the body ends with an operation physt refuses
+     in every mode; physt's own exception leaves the block).  The exception is caught outside the outermost block.
+  ["reenter", k]         try to enter the stored manager cms[k] again (`with cm: read`), while it is entered or after it was
+                         left, from any thread / task: the unchanged library refuses (a generator-based manager is
+                         single-use) -- a refusal, or an entry that is left again at once, leaves the value where it was;
+                         then read
+  ["gen_open", k, v]     (top level only) start a generator that enters the block and stays suspended in it: the context
+                         stays inside the block for the rest of its program
+  ["gen_close", k, how]  ANOTHER thread / task resumes / closes / throws into that generator (the library refuses: a token
+                         belongs to the context it was made in; whatever happens is caught), then reads its OWN value
+"""
 from __future__ import annotations
 
 import asyncio
+import contextlib
+import contextvars
 import copy
+import itertools
 import json
 import os
 import subprocess
@@ -16,6 +44,10 @@ from ..runner import diff_outputs
 
 warnings.simplefilter("ignore")
 
+ARITH_HOWS = ["array", "negative", "negative_nan", "array_mul", "array_div", "array_sub", "negative_factor"]
+GATED = ["negative_factor", "array", "array_mul", "array_div", "array_sub", "negative"]
+FAIL_HOWS = ["hist_mul_hist", "hist_div_hist", "incompatible_add"]
+
 
 # ---------------------------------------------------------------- programs
 def gen_items(rng, depth=0, maxlen=4):
@@ -28,7 +60,7 @@ def gen_items(rng, depth=0, maxlen=4):
         elif r < 0.45:
             items.append(["read"])
         elif r < 0.6:
-            items.append(["arith", rng.choice(["array", "negative", "negative_nan", "array_mul", "array_div", "array_sub", "negative_factor"])])
+            items.append(["arith", rng.choice(ARITH_HOWS)])
         elif depth < 3:
             body = gen_items(rng, depth + 1, maxlen=3)
             items.append(["with", rng.random() < 0.6, body, rng.random() < 0.35])   # value, body, body raises at its end
@@ -37,7 +69,15 @@ def gen_items(rng, depth=0, maxlen=4):
     return items
 
 
-def linearize(items):
+def form_of(it):
+    return it[4] if len(it) > 4 else "with"
+
+
+def blk(v, body, raises=False, form="with"):
+    return ["with", v, body, raises] if form == "with" else ["with", v, body, raises, form]
+
+
+def linearize(items, atomic=False):
     """the primitive operations a program executes, grouped into atomic actions
     returns (actions, raised) where each action is a list of primitive ops"""
     acts = []
@@ -50,9 +90,26 @@ def linearize(items):
             acts.append([{"op": "arith", "how": it[1]}])
         elif it[0] == "spawn":
             acts.append([{"op": it[1], "child": it[2]}])
+        elif it[0] == "reenter":
+            acts.append([{"op": "read", "src": "reenter", "k": it[1]}])
+        elif it[0] == "gen_open":
+            acts.append([{"op": "enter", "v": it[2], "src": "gen_open", "k": it[1]}])
+        elif it[0] == "gen_close":
+            acts.append([{"op": "read", "src": "gen_close", "k": it[1]}])
         elif it[0] == "with":
-            acts.append([{"op": "enter", "v": it[1]}])
-            inner, raised = linearize(it[2])
+            form = form_of(it)
+            if form.startswith("adec:") and not atomic:
+                # the whole call (entry, body, exit) is one step of the schedule
+                inner, raised = linearize([it], atomic=True)
+                acts.append([o for a in inner for o in a])
+                if raised:
+                    return acts, True
+                continue
+            e = {"op": "enter", "v": it[1]}
+            if form != "with":
+                e["form"] = form
+            acts.append([e])
+            inner, raised = linearize(it[2], atomic)
             acts += inner
             if raised:
                 # an exception from a nested block unwinds this block in the same atomic step
@@ -65,14 +122,6 @@ def linearize(items):
     return acts, False
 
 
-def top_level(items):
-    """wrap so that an exception escaping the outermost block is caught (the thread goes on)"""
-    out = []
-    for it in items:
-        out.append(["try", [it]] if it[0] == "with" else it)
-    return out
-
-
 def linearize_top(items):
     acts = []
     for it in items:
@@ -83,6 +132,11 @@ def linearize_top(items):
 
 class Boom(Exception):
     pass
+
+
+def is_leave(e):
+    """an exception the program itself asked for: Boom, or physt's refusal of an operation refused in every mode"""
+    return isinstance(e, Boom) or getattr(e, "_c19_expected", False)
 
 
 # ---------------------------------------------------------------- real execution
@@ -117,7 +171,117 @@ def do_arith(how):
         return False
 
 
-def exec_sync(items, gate, obs, tid):
+def leave_by_exception(raises):
+    """the end of a body that raises: Boom, or an operation physt refuses with and without free arithmetics"""
+    if isinstance(raises, str) and raises.startswith("fail:"):
+        from physt.histogram1d import Histogram1D
+        how = raises[5:]
+        try:
+            with warnings.catch_warnings():
+                warnings.simplefilter("ignore")
+                h = Histogram1D([0, 1, 2], [1, 2])
+                if how == "hist_mul_hist":
+                    h * Histogram1D([0, 1, 2], [3, 4])
+                elif how == "hist_div_hist":
+                    h / Histogram1D([0, 1, 2], [3, 4])
+                else:
+                    h + Histogram1D([0, 1, 3], [3, 4])
+        except (TypeError, ValueError) as e:
+            e._c19_expected = True
+            raise
+    raise Boom()
+
+
+def NOGATE():
+    return None
+
+
+def make_env():
+    """the objects one run shares between all its threads / tasks"""
+    from physt.config import config
+
+    @config.enable_free_arithmetics()
+    def f_on(cont):
+        return cont()
+
+    @config.enable_free_arithmetics(False)
+    def f_off(cont):
+        return cont()
+
+    return {"fns": {"on": f_on, "off": f_off}, "cms": {}, "gens": {}, "probes": [], "log": []}
+
+
+def gen_block(v):
+    from physt.config import config
+    with config.enable_free_arithmetics(v):
+        yield
+
+
+async def agen_block(v):
+    from physt.config import config
+    with config.enable_free_arithmetics(v):
+        yield
+
+
+def finish_gen(g, how):
+    if how == "close":
+        g.close()
+    elif how == "throw":
+        try:
+            g.throw(Boom())
+        except Boom:
+            pass
+    else:
+        try:
+            next(g)
+        except StopIteration:
+            pass
+
+
+async def finish_agen(g, how):
+    if how == "close":
+        await g.aclose()
+    elif how == "throw":
+        try:
+            await g.athrow(Boom())
+        except Boom:
+            pass
+    else:
+        try:
+            await g.__anext__()
+        except StopAsyncIteration:
+            pass
+
+
+def probe(env, k, tid):
+    """try to enter the stored manager k once more; whatever the library answers is recorded, not judged"""
+    from physt.config import config
+    cm, v = env["cms"].get(str(k), (None, True))
+    if cm is None:
+        cm = config.enable_free_arithmetics(v)     # nothing stored (yet): a first, ordinary entry
+    rec = {"t": tid, "k": k, "v": v, "entered": False, "inside": None}
+    try:
+        with cm:
+            rec["entered"] = True
+            rec["inside"] = bool(config.free_arithmetics)
+    except Exception as e:          # the refusal of a single-use manager (its class is not pinned)
+        rec["refusal"] = type(e).__name__
+    env["probes"].append(rec)
+
+
+def foreign_close(env, k, how, tid):
+    g, owner = env["gens"].get(str(k), (None, None))
+    if g is None or owner == tid:
+        return None
+    del env["gens"][str(k)]
+    try:
+        finish_gen(g, how)
+        env["log"].append(["foreign_close", k, "no error"])
+    except Exception as e:
+        env["log"].append(["foreign_close", k, type(e).__name__])
+
+
+def exec_sync(items, gate, obs, tid, env):
     from physt.config import config
     for it in items:
         if it[0] == "set":
@@ -126,23 +290,91 @@ def exec_sync(items, gate, obs, tid):
             gate(); obs.append((tid, {"value": bool(config.free_arithmetics)}))
         elif it[0] == "arith":
             gate(); obs.append((tid, {"accepted": do_arith(it[1])}))
-        elif it[0] == "with":
+        elif it[0] == "reenter":
+            gate(); probe(env, it[1], tid); obs.append((tid, {"value": bool(config.free_arithmetics)}))
+        elif it[0] == "gen_open":
             gate()
-            with config.enable_free_arithmetics(it[1]):
-                obs.append((tid, None))
+            g = gen_block(it[2]); next(g)
+            env["gens"][str(it[1])] = (g, tid)
+            obs.append((tid, None))
+        elif it[0] == "gen_close":
+            gate(); foreign_close(env, it[1], it[2], tid); obs.append((tid, {"value": bool(config.free_arithmetics)}))
+        elif it[0] == "with":
+            block_sync(it, gate, obs, tid, env)
+        else:
+            raise RuntimeError(f"item {it[0]} cannot run here")
+
+
+def block_sync(it, gate, obs, tid, env):
+    from physt.config import config
+    v, body, raises, form = it[1], it[2], it[3], form_of(it)
+    gate()
+    g2 = NOGATE if form.startswith("adec:") else gate
+
+    def inner():
+        obs.append((tid, None))
+        try:
+            exec_sync(body, g2, obs, tid, env)
+        except Exception as e:
+            if not is_leave(e):
+                raise
+            obs.append((tid, None))   # left by the exception of a nested block, in the same atomic step
+            raise
+        g2()
+        obs.append((tid, None))
+        if raises:
+            leave_by_exception(raises)
+
+    if form == "with":
+        with config.enable_free_arithmetics(v):
+            inner()
+    elif form.startswith("stored:"):
+        cm = config.enable_free_arithmetics(v)
+        env["cms"][form[7:]] = (cm, v)
+        with cm:
+            inner()
+    elif form == "stack":
+        with contextlib.ExitStack() as st:
+            st.enter_context(config.enable_free_arithmetics(v))
+            inner()
+    elif form.startswith(("dec:", "adec:")):
+        name = form.split(":")[1]
+        if (name == "on") != bool(v):
+            raise RuntimeError("malformed case: decorated function and block value differ")
+        env["fns"][name](inner)
+    elif form.startswith("gen:"):
+        g = gen_block(v)
+        next(g)
+        try:
+            inner()
+        except Exception as e:
+            if is_leave(e):
                 try:
-                    exec_sync(it[2], gate, obs, tid)
-                except Boom:
-                    obs.append((tid, None))   # left by the exception of a nested block, in the same atomic step
-                    raise
-                gate()
-                obs.append((tid, None))
-                if it[3]:
-                    raise Boom()
+                    g.throw(e)
+                except Exception:
+                    pass
+            raise
+        finish_gen(g, form[4:])
+    else:
+        raise RuntimeError("unknown form " + form)
 
 
-def run_threads(programs, order, spawn_parent):
+def close_leftovers(env):
+    """generators still suspended inside a block are finished in a throw-away context (nothing may reach a later case)"""
+    for k, (g, owner) in list(env["gens"].items()):
+        def fin(g=g):
+            try:
+                g.close()
+            except Exception:
+                pass
+        if hasattr(g, "close"):
+            contextvars.copy_context().run(fin)
+    env["gens"].clear()
+
+
+def run_threads(programs, order, spawn_parent, env=None):
     """programs: {tid: items}; order: list of tids (one entry per atomic action)"""
+    env = make_env() if env is None else env
     obs = []
     sems = {t: threading.Semaphore(0) for t in programs}
     done = threading.Semaphore(0)
@@ -160,9 +392,10 @@ def run_threads(programs, order, spawn_parent):
         gate = make_gate(t)
         for it in programs[t]:
             try:
-                exec_sync([it], _wrap(gate, obs, t), obs, t)
-            except Boom:
-                pass
+                exec_sync([it], gate, obs, t, env)
+            except Exception as e:
+                if not is_leave(e):
+                    env["log"].append(["unexpected", t, repr(e)[:300]])
         if not state["first"][t]:
             done.release()
 
@@ -175,16 +408,14 @@ def run_threads(programs, order, spawn_parent):
             raise RuntimeError("schedule deadlock")
     for t in threads.values():
         t.join(timeout=5)
+    close_leftovers(env)
     return obs
 
 
-def _wrap(gate, obs, t):
-    return gate
-
-
-def run_tasks(programs, order, parent_of):
+def run_tasks(programs, order, parent_of, env=None):
     """asyncio: every program is a task; children are created by their parent's spawn op"""
     from physt.config import config
+    env = make_env() if env is None else env
     obs = []
 
     async def main():
@@ -200,6 +431,17 @@ def run_tasks(programs, order, parent_of):
             await events[t].wait()
             events[t].clear()
 
+        async def aforeign_close(k, how, t):
+            g, owner = env["gens"].get(str(k), (None, None))
+            if g is None or owner == t:
+                return
+            del env["gens"][str(k)]
+            try:
+                await finish_agen(g, how)
+                env["log"].append(["foreign_close", k, "no error"])
+            except Exception as e:
+                env["log"].append(["foreign_close", k, type(e).__name__])
+
         async def exec_items(items, t):
             for it in items:
                 if it[0] == "set":
@@ -212,26 +454,80 @@ def run_tasks(programs, order, parent_of):
                     await gate(t)
                     tasks[it[2]] = asyncio.create_task(body(it[2]))
                     obs.append((t, None))
-                elif it[0] == "with":
+                elif it[0] == "reenter":
+                    await gate(t); probe(env, it[1], t); obs.append((t, {"value": bool(config.free_arithmetics)}))
+                elif it[0] == "gen_open":
                     await gate(t)
-                    with config.enable_free_arithmetics(it[1]):
-                        obs.append((t, None))
+                    g = agen_block(it[2]); await g.__anext__()
+                    env["gens"][str(it[1])] = (g, t)
+                    obs.append((t, None))
+                elif it[0] == "gen_close":
+                    await gate(t); await aforeign_close(it[1], it[2], t)
+                    obs.append((t, {"value": bool(config.free_arithmetics)}))
+                elif it[0] == "with":
+                    await block_async(it, t)
+                else:
+                    raise RuntimeError(f"item {it[0]} cannot run here")
+
+        async def block_async(it, t):
+            v, body_items, raises, form = it[1], it[2], it[3], form_of(it)
+            if form.startswith("adec:"):
+                await gate(t)
+                block_sync(it, NOGATE, obs, t, env)     # a plain function call: one step of the schedule
+                return
+            if form.startswith("dec:"):
+                raise RuntimeError("malformed case: a stepped call of a plain decorated function inside an asyncio task")
+            await gate(t)
+
+            async def inner():
+                obs.append((t, None))
+                try:
+                    await exec_items(body_items, t)
+                except Exception as e:
+                    if not is_leave(e):
+                        raise
+                    obs.append((t, None))
+                    raise
+                await gate(t)
+                obs.append((t, None))
+                if raises:
+                    leave_by_exception(raises)
+
+            if form == "with":
+                with config.enable_free_arithmetics(v):
+                    await inner()
+            elif form.startswith("stored:"):
+                cm = config.enable_free_arithmetics(v)
+                env["cms"][form[7:]] = (cm, v)
+                with cm:
+                    await inner()
+            elif form == "stack":
+                with contextlib.ExitStack() as st:
+                    st.enter_context(config.enable_free_arithmetics(v))
+                    await inner()
+            elif form.startswith("gen:"):
+                g = agen_block(v)
+                await g.__anext__()
+                try:
+                    await inner()
+                except Exception as e:
+                    if is_leave(e):
                         try:
-                            await exec_items(it[2], t)
-                        except Boom:
-                            obs.append((t, None))
-                            raise
-                        await gate(t)
-                        obs.append((t, None))
-                        if it[3]:
-                            raise Boom()
+                            await g.athrow(e)
+                        except Exception:
+                            pass
+                    raise
+                await finish_agen(g, form[4:])
+            else:
+                raise RuntimeError("unknown form " + form)
 
         async def body(t):
             for it in programs[t]:
                 try:
                     await exec_items([it], t)
-                except Boom:
-                    pass
+                except Exception as e:
+                    if not is_leave(e):
+                        env["log"].append(["unexpected", t, repr(e)[:300]])
             if not first[t]:
                 done.set()
 
@@ -245,6 +541,15 @@ def run_tasks(programs, order, parent_of):
             await asyncio.wait_for(done.wait(), timeout=20)
         for tk in list(tasks.values()):
             await asyncio.wait_for(tk, timeout=5)
+
+        async def fin():
+            for k, (g, owner) in list(env["gens"].items()):
+                try:
+                    await g.aclose()
+                except Exception:
+                    pass
+            env["gens"].clear()
+        await asyncio.create_task(fin())      # in a context of its own
 
     asyncio.run(main())
     return obs
@@ -261,22 +566,96 @@ print(json.dumps([o for _, o in obs]))
 '''
 
 
+# ---------------------------------------------------------------- generators of the usage forms
+def simple_items(rng, p_read=0.6, p_arith=0.35):
+    out = []
+    if rng.random() < p_read:
+        out.append(["read"])
+    if rng.random() < p_arith:
+        out.append(["arith", rng.choice(GATED)])
+    return out
+
+
+def pick_raise(rng):
+    return True if rng.random() < 0.5 else "fail:" + rng.choice(FAIL_HOWS)
+
+
+def chain(rng, levels, raise_at=None):
+    """nested blocks, outermost first; levels = [(value, form)]; the body of level `raise_at` ends by raising"""
+    def build(i):
+        body = simple_items(rng)
+        if i + 1 < len(levels):
+            body.append(build(i + 1))
+            body += simple_items(rng, 0.5, 0.2)
+        if not body:
+            body.append(["read"])
+        v, form = levels[i]
+        return blk(v, body, pick_raise(rng) if raise_at == i else False, form)
+    return build(0)
+
+
+def dec_levels(rng, depth, stepped):
+    r = rng.random()
+    first = rng.choice(["on", "off"])
+    if r < 0.35:
+        names = [first] * depth                                             # f -> f -> f
+    elif r < 0.7:
+        names = [first if i % 2 == 0 else ("off" if first == "on" else "on") for i in range(depth)]   # f -> g -> f
+    else:
+        names = [rng.choice(["on", "off"]) for _ in range(depth)]
+    out = []
+    for n in names:
+        kind = "dec:" if stepped and rng.random() < 0.8 else "adec:"
+        out.append((n == "on", kind + n))
+    return out
+
+
+def interleavings(n0, n1):
+    """all orders of n0 steps of thread 0 and n1 steps of thread 1"""
+    for pos in itertools.combinations(range(n0 + n1), n0):
+        s = set(pos)
+        yield [0 if i in s else 1 for i in range(n0 + n1)]
+
+
 class C19:
     ID = "C19"
-    N_QUICK = 150
-    N_THOROUGH = 3000
+    N_QUICK = 220
+    N_THOROUGH = 3600
     N_SEARCH = 150
+    BASE_SHARE = 0.70        # the share of the original stream of random programs (>= 150 of the 220 quick cases)
     RULE = ("programs of set / read / arithmetic-with-array / negative-contents / nested `with enable_free_arithmetics(v)` blocks "
             "(depth <= 4, bodies that raise at any depth) for 1-3 real threads or asyncio tasks (children spawned mid-program), run "
             "under a generated interleaving of their atomic steps (threads stepped by semaphores, tasks by events); every read and "
             "every accept / refuse decision is recorded; each thread's program is re-run alone and compared (isolation); one "
-            "subprocess run with PHYST_FREE_ARITHMETICS=1 (environment default). Thorough: all interleavings of small programs. "
+            "subprocess run with PHYST_FREE_ARITHMETICS=1 (environment default). Streams (tags stream:*): base = the above; "
+            "decorator = calls of functions decorated with the manager (shared by all threads), re-entering themselves directly or "
+            "through the other decorated function, with exceptions at any depth, concurrently from threads with different values; "
+            "exc_depth = nested blocks of mixed forms (with / stored manager / ExitStack / decorator / generator) left by Boom or by "
+            "an operation physt refuses in every mode, at a chosen depth, then reads and gated operations outside; stored_cm = a "
+            "kept manager object entered once and tried again (nested, afterwards, from other threads / tasks); generator = "
+            "(async) generators that enter the block and yield, finished by their own context or touched by another one. "
+            "Thorough: all interleavings of small programs. "
             "non-trivial = at least two contexts with different values alive at once; distinct = hash of programs + schedule")
     ASSUMPTIONS = ["CPython's contextvars / threading / asyncio semantics (a new thread starts with an empty context, a task with a copy)",
-                   "the GIL-level atomicity of a single set / reset is not explored: steps are scheduled deterministically"]
-    EXTRA_TRUST = ["the model cannot exhibit interpreter-level races; schedules are the interleavings of whole ContextVar operations"]
+                   "the GIL-level atomicity of a single set / reset is not explored: steps are scheduled deterministically",
+                   "a block entered by a generator that another context then resumes / closes is outside well-bracketed scoping: only "
+                   "the OTHER context's own value is pinned there (unchanged), the opener's value is not judged afterwards"]
+    EXTRA_TRUST = ["the model cannot exhibit interpreter-level races; schedules are the interleavings of whole ContextVar operations",
+                   "a call of a decorated function / an entered stored manager / ExitStack / generator block is presented to the model "
+                   "as the enter ... exit pair of the context that performs it"]
 
+    # ------------------------------------------------------------------ generation
     def gen_case(self, rng, k, tier):
+        r = rng.random()
+        if r >= self.BASE_SHARE:
+            r = (r - self.BASE_SHARE) / (1 - self.BASE_SHARE)
+            if r < 0.34:
+                return self.gen_decorator(rng)
+            if r < 0.56:
+                return self.gen_exc_depth(rng)
+            if r < 0.78:
+                return self.gen_stored(rng)
+            return self.gen_generator(rng)
         mode = rng.choice(["threads", "threads", "tasks", "single"])
         nthreads = 1 if mode == "single" else rng.randint(2, 3)
         programs = {t: gen_items(rng) for t in range(nthreads)}
@@ -286,25 +665,142 @@ class C19:
             pos = rng.randint(0, len(programs[0]))
             programs[0].insert(pos, ["spawn", "spawn_task", 1])
             parent_of[1] = 0
-        return self.finish(rng, mode, programs, parent_of)
+        return self.finish(rng, mode, programs, parent_of, stream="base")
 
-    def finish(self, rng, mode, programs, parent_of, order=None):
+    def gen_decorator(self, rng):
+        mode = rng.choice(["single", "threads", "threads", "threads", "tasks"])
+        n = 1 if mode == "single" else (2 if rng.random() < 0.75 else 3)
+        stepped = mode != "tasks"
+        amb0 = rng.random() < 0.5
+        shared = None
+        programs = {}
+        for t in range(n):
+            amb = amb0 if t % 2 == 0 else not amb0
+            p = [["set", amb]] if (t > 0 or rng.random() < 0.8) else []
+            for _ in range(rng.randint(1, 2)):
+                depth = rng.choice([1, 1, 2, 2, 3, 4]) if n == 1 else rng.choice([1, 1, 2, 3])
+                levels = dec_levels(rng, depth, stepped)
+                if n > 1:
+                    # the threads mostly call the SAME decorated function, and at least the outermost call is stepped
+                    if shared is None:
+                        shared = levels[0][1].split(":")[1]
+                    if rng.random() < 0.8:
+                        levels[0] = (shared == "on", ("dec:" if stepped else "adec:") + shared)
+                raise_at = rng.randrange(depth) if rng.random() < 0.4 else None
+                p.append(chain(rng, levels, raise_at))
+                p.append(["read"])
+                if rng.random() < 0.7:
+                    p.append(["arith", rng.choice(GATED)])
+            programs[t] = p
+        return self.finish(rng, mode, programs, {}, stream="decorator")
+
+    def mixed_levels(self, rng, depth, stepped, kbase=0):
+        out = []
+        for i in range(depth):
+            v = rng.random() < 0.6
+            form = rng.choice(["with", "stack", "stored", "gen", "dec", "adec"])
+            if form == "stored":
+                form = f"stored:{kbase + i}"
+            elif form == "gen":
+                form = "gen:" + rng.choice(["next", "close", "throw"])
+            elif form == "dec":
+                form = ("dec:" if stepped else "adec:") + ("on" if v else "off")
+            elif form == "adec":
+                form = "adec:" + ("on" if v else "off")
+            out.append((v, form))
+        return out
+
+    def gen_exc_depth(self, rng):
+        mode = rng.choice(["single", "single", "threads", "tasks"])
+        n = 1 if mode == "single" else 2
+        programs = {}
+        for t in range(n):
+            p = [["set", rng.random() < 0.5]] if rng.random() < 0.7 else []
+            for j in range(rng.randint(1, 2)):
+                depth = rng.randint(1, 4)
+                levels = self.mixed_levels(rng, depth, mode != "tasks", kbase=10 * t + 4 * j)
+                p.append(chain(rng, levels, rng.randrange(depth)))
+                p.append(["read"])
+                p.append(["arith", rng.choice(["negative_factor", "array", "array_mul", "array_div"])])
+            programs[t] = p
+        return self.finish(rng, mode, programs, {}, stream="exc_depth")
+
+    def gen_stored(self, rng):
+        mode = rng.choice(["single", "threads", "threads", "tasks", "tasks"])
+        n = 1 if mode == "single" else rng.randint(2, 3)
+        programs = {}
+        v = rng.random() < 0.6
+        amb0 = (not v) if rng.random() < 0.7 else v
+        body = simple_items(rng) + [["reenter", 0]] + simple_items(rng)
+        if rng.random() < 0.5:
+            body.append(blk(rng.random() < 0.5, [["read"], ["reenter", 0]], rng.random() < 0.3))
+            body.append(["read"])
+        if rng.random() < 0.3:
+            # the manager left, and entered by a second `with` of a NEW stored object with the same key
+            body.append(["read"])
+        p0 = ([["set", amb0]] if rng.random() < 0.8 else []) + [blk(v, body, pick_raise(rng) if rng.random() < 0.3 else False, "stored:0"),
+                                                               ["read"], ["reenter", 0], ["read"], ["arith", rng.choice(GATED)]]
+        programs[0] = p0
+        for t in range(1, n):
+            amb = (not amb0) if rng.random() < 0.7 else amb0
+            p = [["set", amb], ["read"]]
+            for _ in range(rng.randint(1, 2)):
+                p += [["reenter", 0], ["read"]]
+                if rng.random() < 0.5:
+                    p.append(["arith", rng.choice(GATED)])
+            if rng.random() < 0.4:
+                p.append(blk(rng.random() < 0.5, [["read"], ["reenter", t]], False, f"stored:{t}"))
+                p.append(["read"])
+            programs[t] = p
+        return self.finish(rng, mode, programs, {}, stream="stored_cm")
+
+    def gen_generator(self, rng):
+        mode = rng.choice(["single", "threads", "threads", "tasks", "tasks"])
+        n = 1 if mode == "single" else 2
+        programs = {}
+        for t in range(n):
+            p = [["set", rng.random() < 0.5]] if rng.random() < 0.7 else []
+            depth = rng.randint(1, 3)
+            levels = [(rng.random() < 0.6, "gen:" + rng.choice(["next", "close", "throw"]) if rng.random() < 0.75 else "with")
+                      for _ in range(depth)]
+            p.append(chain(rng, levels, rng.randrange(depth) if rng.random() < 0.35 else None))
+            p.append(["read"])
+            p.append(["arith", rng.choice(GATED)])
+            programs[t] = p
+        if n == 2 and rng.random() < 0.75:
+            # thread 0 starts a generator that stays inside the block; thread 1 resumes / closes it
+            a, b = (0, 1) if rng.random() < 0.5 else (1, 0)
+            va = rng.random() < 0.6
+            programs[a] += [["gen_open", 0, va], ["read"], ["arith", rng.choice(GATED)]]
+            if rng.random() < 0.5:
+                programs[a] += [blk(rng.random() < 0.5, [["read"]], rng.random() < 0.3), ["read"]]
+            programs[b] = [["set", (not va) if rng.random() < 0.7 else va]] + programs[b]
+            programs[b] += [["gen_close", 0, rng.choice(["next", "close", "throw"])], ["read"], ["arith", rng.choice(GATED)]]
+        return self.finish(rng, mode, programs, {}, stream="generator")
+
+    def finish(self, rng, mode, programs, parent_of, order=None, stream=None):
         acts = {t: linearize_top(p) for t, p in programs.items()}
         if order is None:
-            # a random interleaving that respects spawn order
+            # a random interleaving that respects spawn order (and lets a generator be started before it is touched from outside)
             remaining = {t: len(a) for t, a in acts.items()}
             started = {t for t in programs if parent_of.get(t) is None}
             pos = {t: 0 for t in programs}
+            to_open = {o["k"] for a in acts.values() for act in a for o in act if o.get("src") == "gen_open"}
             order = []
             while any(remaining[t] for t in remaining):
                 cand = [t for t in started if remaining[t]]
                 if not cand:
                     break
+                if to_open:
+                    free = [t for t in cand if not any(o.get("src") == "gen_close" and o["k"] in to_open for o in acts[t][pos[t]])]
+                    cand = free or cand
                 t = rng.choice(cand)
                 a = acts[t][pos[t]]
                 for o in a:
                     if o["op"] in ("spawn_task", "spawn_thread"):
                         started.add(o["child"])
+                    if o.get("src") == "gen_open":
+                        to_open.discard(o["k"])
                 order.append(t)
                 pos[t] += 1
                 remaining[t] -= 1
@@ -313,18 +809,19 @@ class C19:
         for t in order:
             for o in acts[t][pos[t]]:
                 e = {"t": t, "op": o["op"]}
-                if "v" in o:
-                    e["v"] = o["v"]
-                if "child" in o:
-                    e["child"] = o["child"]
+                for key in ("v", "child", "form", "src", "k"):
+                    if key in o:
+                        e[key] = o[key]
                 sched.append(e)
             pos[t] += 1
+        tags = ["mode:" + mode, f"threads:{len(programs)}"]
+        if stream:
+            tags.append("stream:" + stream)
         return {"kind": "config", "mode": mode, "default": False,
                 "programs": {str(t): p for t, p in programs.items()}, "parent_of": {str(k): v for k, v in parent_of.items()},
-                "order": order, "sched": sched, "tags": ["mode:" + mode, f"threads:{len(programs)}"]}
+                "order": order, "sched": sched, "tags": tags}
 
     def exhaustive_cases(self, tier):
-        import itertools
         import random
         rng = random.Random(19)
         progs = [
@@ -353,6 +850,54 @@ class C19:
                "parent_of": {}, "order": [0] * 5,
                "sched": [{"t": 0, "op": "read"}, {"t": 0, "op": "arith"}, {"t": 0, "op": "enter", "v": False}, {"t": 0, "op": "read"},
                          {"t": 0, "op": "exit"}, {"t": 0, "op": "read"}], "tags": ["env_default"]}
+        yield from self.exhaustive_forms(tier, rng)
+
+    def exhaustive_forms(self, tier, rng):
+        """small complete sub-spaces of the usage forms"""
+        # (1) one context: every chain of decorated calls of depth <= 3 (f_on / f_off in every combination, so f -> f and
+        #     f -> g -> f are there), both ambient values, no exception or an exception at each depth; stepped and atomic
+        for depth in (1, 2, 3):
+            for names in itertools.product(["on", "off"], repeat=depth):
+                for amb in (False, True):
+                    for raise_at in [None] + list(range(depth)):
+                        for kind, mode in (("dec:", "single"), ("adec:", "tasks")):
+                            if kind == "adec:" and tier != "thorough" and depth == 3:
+                                continue
+                            item = None
+                            for i in reversed(range(depth)):
+                                body = [["read"]] + ([item, ["read"]] if item is not None else [])
+                                item = blk(names[i] == "on", body, raise_at == i, kind + names[i])
+                            p = {0: [["set", amb], item, ["read"], ["arith", "negative_factor"]]}
+                            c = self.finish(rng, mode, p, {}, stream="decorator")
+                            c["tags"].append("exhaustive_decorator_chains")
+                            yield c
+        # (2) two contexts with different values inside the same shared object, every interleaving (all entry and exit
+        #     orders): the decorated function from two threads; a stored manager tried by the other thread / task; a generator
+        #     block touched by the other thread / task
+        pairs = []
+        for name in (("on",) if tier != "thorough" else ("on", "off")):
+            v = name == "on"
+            for a0, a1 in ((not v, v),) if tier != "thorough" else ((not v, v), (v, not v)):
+                pairs.append(("threads", {0: [["set", a0], blk(v, [["read"]], False, "dec:" + name), ["read"]],
+                                          1: [["set", a1], blk(v, [["read"]], tier == "thorough" and a1, "dec:" + name), ["read"]]},
+                              "exhaustive_decorator_threads"))
+        for mode in ("threads", "tasks"):
+            pairs.append((mode, {0: [["set", False], blk(True, [["read"]], False, "stored:0"), ["read"]],
+                                 1: [["set", True], ["reenter", 0], ["arith", "array"]]}, "exhaustive_stored_shared"))
+            for how in ("next", "close", "throw"):
+                pairs.append((mode, {0: [["set", False], ["gen_open", 0, True], ["read"]],
+                                     1: [["set", True], ["gen_close", 0, how], ["arith", "array"]]}, "exhaustive_generator_foreign"))
+            pairs.append((mode, {0: [["set", True], blk(False, [["read"]], False, "gen:close"), ["read"]],
+                                 1: [["set", False], blk(True, [["read"]], True, "gen:next"), ["arith", "array"]]},
+                          "exhaustive_generator_own"))
+        for mode, p, tag in pairs:
+            acts = {t: linearize_top(x) for t, x in p.items()}
+            n0, n1 = len(acts[0]) - 1, len(acts[1]) - 1
+            for inter in interleavings(n0, n1):
+                c = self.finish(rng, mode, copy.deepcopy(p), {}, order=[0, 1] + inter,
+                                stream={"exhaustive_decorator_threads": "decorator", "exhaustive_stored_shared": "stored_cm"}.get(tag, "generator"))
+                c["tags"].append(tag)
+                yield c
 
     # ------------------------------------------------------------------ run
     def run_impl(self, case):
@@ -367,14 +912,18 @@ class C19:
                 raise RuntimeError("env subprocess failed: " + p.stderr[-800:])
             return {"outs": [{"t": 0, "obs": o} for o in json.loads(p.stdout.strip().splitlines()[-1])], "solo": {}, "log": []}
         runner = run_tasks if case["mode"] == "tasks" else run_threads
-        obs = runner(programs, case["order"], parent_of)
+        env = make_env()
+        obs = runner(programs, case["order"], parent_of, env)
         outs = [{"t": t, "obs": o} for t, o in obs]
         solo = {}
+        log = list(env["log"])
         for t, p in programs.items():
             if parent_of.get(t) is None and not any(it[0] == "spawn" for it in p):
-                so = run_threads({t: p}, [t] * len(linearize_top(p)), {})
+                senv = make_env()
+                so = run_threads({t: p}, [t] * len(linearize_top(p)), {}, senv)
                 solo[str(t)] = [o for _, o in so]
-        return {"outs": outs, "solo": solo, "log": []}
+                log += [["solo"] + x for x in senv["log"] if x[0] == "unexpected"]
+        return {"outs": outs, "solo": solo, "log": log, "probes": env["probes"]}
 
     def model_case(self, case, io):
         return {"kind": "config", "default": case["default"], "sched": case["sched"]}
@@ -386,6 +935,12 @@ class C19:
     def oracle(self, case, io):
         fails = []
         outs = io["outs"]
+        sched = case["sched"]
+        for x in io.get("log", []):
+            if "unexpected" in x[:2]:
+                fails.append(f"unexpected_exception: a use of the manager that the unchanged library supports raised in thread {x[-2]}: {x[-1]}")
+        if len(outs) != len(sched):
+            return (fails + [f"trace_shape: {len(outs)} observations for {len(sched)} scheduled operations"])[:6]
         # isolation: what a thread observes equals what it observes alone
         for t, so in io["solo"].items():
             mine = [o["obs"] for o in outs if o["t"] == int(t)]
@@ -393,31 +948,55 @@ class C19:
                 k = next((i for i, (a, b) in enumerate(zip(mine, so)) if a != b), min(len(mine), len(so)))
                 fails.append(f"not_isolated: thread {t} observes {mine[k] if k < len(mine) else None} at its step {k} under the schedule "
                              f"but {so[k] if k < len(so) else None} when run alone")
-        # restore + gate on each thread's own trace
-        per = {}
-        for e, o in zip(case["sched"], outs):
-            per.setdefault(e["t"], []).append((e, o["obs"]))
-        for t, tr in per.items():
-            stack = []
-            cur = None   # last known value read in this thread
-            known = None
-            for e, o in tr:
-                if e["op"] == "read":
-                    if known is not None and o["value"] != known:
-                        fails.append(f"not_restored: thread {t} reads {o['value']} where {known} was in force")
-                    known = o["value"]
-                elif e["op"] == "set":
-                    known = e["v"]
-                elif e["op"] == "enter":
-                    stack.append(known)
-                    known = e["v"]
-                elif e["op"] == "exit":
-                    known = stack.pop() if stack else None
-                elif e["op"] == "arith":
-                    if known is not None and o["accepted"] != known:
-                        fails.append(f"gate: thread {t}: operand accepted={o['accepted']} while free_arithmetics is {known}")
-                elif e["op"] in ("spawn_task", "spawn_thread"):
-                    pass
+        # restore + gate: well-bracketed scoping on each context's own operations, walked in schedule order
+        #   known[t] = the value in force in context t as far as the property pins it (None = not pinned)
+        parent_of = {int(k): v for k, v in case["parent_of"].items()}
+        known, stack = {}, {}
+        for t in {e["t"] for e in sched}:
+            # a thread, and a task started from the unconfigured main context, start with the environment default
+            known[t] = case["default"] if parent_of.get(t) is None else None
+            stack[t] = []
+        opener = {}
+        for e, out in zip(sched, outs):
+            t, o, op = e["t"], out["obs"], e["op"]
+            what = {"reenter": " (after trying to enter a stored manager again)", "gen_close": " (after touching another context's generator)",
+                    }.get(e.get("src"), "")
+            if op == "read":
+                if e.get("src") == "gen_close" and e["k"] in opener and opener[e["k"]] != t:
+                    # the opener's block was torn down from outside: what it reads from now on is not pinned
+                    known[opener[e["k"]]] = None
+                    stack[opener[e["k"]]] = [None] * len(stack[opener[e["k"]]])
+                if not isinstance(o, dict) or "value" not in o:
+                    fails.append(f"trace_shape: thread {t}: a read observed {o}")
+                    continue
+                if known[t] is not None and o["value"] != known[t]:
+                    fails.append(f"not_restored: thread {t} reads {o['value']} where {known[t]} was in force{what}")
+                known[t] = o["value"]
+            elif op == "set":
+                known[t] = e["v"]
+            elif op == "enter":
+                stack[t].append(known[t])
+                known[t] = e["v"]
+                if e.get("src") == "gen_open":
+                    opener[e["k"]] = t
+            elif op == "exit":
+                known[t] = stack[t].pop() if stack[t] else None
+            elif op == "arith":
+                if not isinstance(o, dict) or "accepted" not in o:
+                    fails.append(f"trace_shape: thread {t}: an operation observed {o}")
+                    continue
+                if known[t] is not None and o["accepted"] != known[t]:
+                    fails.append(f"gate: thread {t}: operand accepted={o['accepted']} while free_arithmetics is {known[t]}")
+            elif op == "spawn_task":
+                known[e["child"]] = known[t]
+                stack[e["child"]] = []
+            elif op == "spawn_thread":
+                known[e["child"]] = case["default"]
+                stack[e["child"]] = []
+        # a stored manager that lets itself be entered again is a block like any other
+        for p in io.get("probes", []):
+            if p["entered"] and p["inside"] != p["v"]:
+                fails.append(f"reentry_inside: thread {p['t']}: inside the re-entered stored manager (value {p['v']}) the switch reads {p['inside']}")
         if case["mode"] == "env":
             if outs and outs[0]["obs"] != {"value": True}:
                 fails.append("env_default: PHYST_FREE_ARITHMETICS=1 is not the default")
@@ -426,24 +1005,59 @@ class C19:
     def nontrivial(self, case, io):
         vals = {}
         for e, o in zip(case["sched"], io["outs"]):
-            if e["op"] == "read":
+            if e["op"] == "read" and isinstance(o["obs"], dict) and "value" in o["obs"]:
                 vals.setdefault(e["t"], set()).add(o["obs"]["value"])
         return len(vals) >= 2 and len(set().union(*vals.values())) == 2 if vals else False
 
     def tags(self, case, io):
-        return list(case.get("tags", [])) + [f"op:{e['op']}" for e in case["sched"]]
+        out = list(case.get("tags", [])) + [f"op:{e['op']}" for e in case["sched"]]
+        out += sorted({"form:" + e["form"].split(":")[0] for e in case["sched"] if "form" in e})
+        out += sorted({"form:" + e["src"] for e in case["sched"] if "src" in e})
+        if any(e.get("raised") for e in case["sched"]):
+            out.append("exception_leaves_block")
+        for p in io.get("probes", []) if isinstance(io, dict) else []:
+            out.append("reentry:" + ("entered" if p["entered"] else "refused"))
+        return out
 
     def matches_known(self, finding, case):
         return True
 
+    def rebuilt(self, case, programs, seed=1):
+        import random
+        parent_of = {int(k): v for k, v in case["parent_of"].items()}
+        stream = next((t[7:] for t in case.get("tags", []) if t.startswith("stream:")), None)
+        return self.finish(random.Random(seed), case["mode"], programs, parent_of, stream=stream)
+
     def neighbours(self, case):
-        return []
+        # the same programs under other interleavings
+        if case["mode"] == "env":
+            return
+        programs = {int(t): p for t, p in case["programs"].items()}
+        for s in range(2, 8):
+            yield self.rebuilt(case, copy.deepcopy(programs), seed=s)
 
     def shrink_candidates(self, case):
-        # drop a whole top-level item of one program and rebuild with a round-robin order
-        import random
+        # every candidate is strictly smaller than the case (a candidate equal to it would keep the shrinker busy for its whole budget)
+        same = json.dumps(case["programs"], sort_keys=True)
+        for c in self._shrink_candidates(case):
+            if json.dumps(c["programs"], sort_keys=True) != same:
+                yield c
+
+    def _shrink_candidates(self, case):
+        if case["mode"] == "env":
+            return
         programs = {int(t): p for t, p in case["programs"].items()}
         parent_of = {int(k): v for k, v in case["parent_of"].items()}
+        # drop a whole thread / task that nobody spawned and that spawns nobody
+        if len(programs) > 1:
+            for t in sorted(programs, reverse=True):
+                if t in parent_of or t in parent_of.values() or any(it[0] == "spawn" for it in programs[t]):
+                    continue
+                q = {u: copy.deepcopy(p) for u, p in programs.items() if u != t}
+                if 0 not in q:
+                    continue
+                yield self.rebuilt(case, q)
+        # drop a whole top-level item of one program and rebuild with a fresh order
         for t, p in programs.items():
             for i in range(len(p)):
                 if p[i][0] == "spawn":
@@ -452,7 +1066,39 @@ class C19:
                 del q[t][i]
                 if not q[t]:
                     q[t] = [["read"]]
-                yield self.finish(random.Random(1), case["mode"], q, parent_of)
+                yield self.rebuilt(case, q)
+        # inside the blocks: drop an item of a body, take the exception away, turn the form into a plain with statement
+        def paths(items, pre=()):
+            for i, it in enumerate(items):
+                if it[0] == "with":
+                    yield pre + (i,)
+                    yield from paths(it[2], pre + (i,))
+
+        def at(items, path):
+            it = items[path[0]]
+            for i in path[1:]:
+                it = it[2][i]
+            return it
+
+        for t, p in programs.items():
+            for path in list(paths(p)):
+                b = at(p, path)
+                for j in range(len(b[2])):
+                    q = copy.deepcopy(programs)
+                    bb = at(q[t], path)
+                    del bb[2][j]
+                    if not bb[2]:
+                        bb[2].append(["read"])
+                    yield self.rebuilt(case, q)
+                if b[3]:
+                    q = copy.deepcopy(programs)
+                    at(q[t], path)[3] = False
+                    yield self.rebuilt(case, q)
+                if form_of(b) != "with":
+                    q = copy.deepcopy(programs)
+                    bb = at(q[t], path)
+                    del bb[4:]
+                    yield self.rebuilt(case, q)
 
 
 PROP = C19()
